@@ -264,6 +264,34 @@ stream_lastclock(struct stream *stream)
 	return stream->lastclock;
 }
 
+/* Returns the size of the event at the current offset or -1 if it doesn't
+ * fit in the stream. Never reads past the end of the stream and doesn't
+ * narrow the jumbo size to int. */
+static int64_t
+next_ev_size(struct stream *stream)
+{
+	int64_t left = stream->size - stream->offset;
+	struct ovni_ev *ev = (struct ovni_ev *) &stream->buf[stream->offset];
+	int64_t size = (int64_t) sizeof(ev->header);
+
+	if (left < size)
+		return -1;
+
+	if (ev->header.flags & OVNI_EV_JUMBO) {
+		size += (int64_t) sizeof(ev->payload.jumbo.size);
+		if (left < size)
+			return -1;
+		size += (int64_t) ev->payload.jumbo.size;
+	} else if (ev->header.flags & 0x0f) {
+		size += (int64_t) (ev->header.flags & 0x0f) + 1;
+	}
+
+	if (left < size)
+		return -1;
+
+	return size;
+}
+
 int
 stream_step(struct stream *stream)
 {
@@ -274,7 +302,8 @@ stream_step(struct stream *stream)
 
 	/* Only step the offset if we have loaded an event */
 	if (stream->cur_ev != NULL) {
-		stream->offset += ovni_ev_size(stream->cur_ev);
+		/* Already checked when it was loaded */
+		stream->offset += next_ev_size(stream);
 
 		/* It cannot pass the size, otherwise we are reading garbage */
 		if (stream->offset > stream->size) {
@@ -291,14 +320,15 @@ stream_step(struct stream *stream)
 		}
 	}
 
-	stream->cur_ev = (struct ovni_ev *) &stream->buf[stream->offset];
-
 	/* Ensure the event fits */
-	if (stream->offset + ovni_ev_size(stream->cur_ev) > stream->size) {
+	if (next_ev_size(stream) < 0) {
+		stream->cur_ev = NULL;
 		err("stream '%s' ends with incomplete event",
 				stream->relpath);
 		return -1;
 	}
+
+	stream->cur_ev = (struct ovni_ev *) &stream->buf[stream->offset];
 
 	int64_t clock = stream_evclock(stream, stream->cur_ev);
 
